@@ -1,7 +1,7 @@
 (** C07 — arithmetic evaluates as bash's wrapping 64-bit C-style integer arithmetic.
     Only pinned statements, [exact], and [Print Assumptions]. *)
 From BV Require Import Base.Prelude Arith.Wrap64 Arith.Ast Arith.Lit Arith.PegPrec Arith.Parse Arith.Eval
-  Arith.EvalProofs Arith.ParseProofs Arith.TokProofs gen.C07ArithTable.
+  Arith.EvalProofs Arith.ParseProofs Arith.TokProofs Arith.CharLex Arith.CharProofs gen.C07ArithTable.
 
 (** *** the parser table regenerated from brush-parser/src/arithmetic.rs is the C / bash operator
     table: same levels in the same order, same associativity, same operator texts, same AST
@@ -18,18 +18,23 @@ Theorem c07_table_markers_ok : forallb (forallb rule_markers_ok) arith_table = t
 Proof. exact table_markers_ok. Qed.
 Print Assumptions c07_table_markers_ok.
 
-(** *** parse ∘ render = id.  The precedence algorithm rust-peg generates, run with the regenerated
-    table over a token stream, parses every rendering [R q e ts tq] of a tree [e] from bash's
-    operator table — minimal parentheses or any redundant ones — back to [e], in a call with
-    minimum level [m <= q] and before any continuation that cannot extend the expression.
-    (Token level: [c07_parse_render_partial]; the character-level statement
-    [TokProofs.parse_render_stmt] additionally needs the lexing lemma and is checked by
-    correspondence and by [entry_c07_roundtrip] on every run.) *)
-Theorem c07_parse_render_partial : forall q e ts tq, R q e ts tq ->
+(** *** parse ∘ render = id, character level.  brush's arithmetic parser (model: the algorithm
+    rust-peg generates for [precedence!], the regenerated table, the regenerated lexical rules)
+    maps every rendering of a tree [e] from bash's operator table ([R]: minimal parentheses or any
+    redundant ones; no array subscripts) with one blank between tokens ([show_toks]) back to [e].
+    [wf_chars]: names are identifiers, literals are decimal numbers below 2^63. *)
+Theorem c07_parse_render : forall e ts tq, R 0 e ts tq -> wf_chars e ->
+  arith_parse (show_toks ts) = Some e.
+Proof. exact parse_render_char. Qed.
+Print Assumptions c07_parse_render.
+
+(** the same at token level (the algorithm over an ideal lexer), for any call level [m <= q] and any
+    continuation that cannot extend the expression *)
+Theorem c07_parse_render_tokens : forall q e ts tq, R q e ts tq ->
   forall m rest fuel, (m <= q)%nat -> follow_ok m rest -> (length (ts ++ rest) < fuel)%nat ->
   tparse fuel m (ts ++ rest) = PMatch e rest.
 Proof. exact tparse_render. Qed.
-Print Assumptions c07_parse_render_partial.
+Print Assumptions c07_parse_render_tokens.
 
 (** every well-formed tree (no array subscripts), rendered with minimal parentheses *)
 Theorem c07_parse_render_min : forall e, wf e ->
